@@ -56,7 +56,12 @@ var wireDevs = []wireDev{
 	{Name: "http10-until-close", Bytes: "HTTP/1.0 200 OK\r\n\r\nbody until close", Close: true, Status: 200},
 	{Name: "continue-flood", Bytes: strings.Repeat("HTTP/1.1 100 Continue\r\n\r\n", 3) + okAnswer, Status: 200},
 	{Name: "redirect-to-self", Bytes: "HTTP/1.1 302 Found\r\nLocation: /dev\r\nContent-Length: 0\r\n\r\n", Status: 302},
-	{Name: "redirect-to-nowhere", Bytes: "HTTP/1.1 301 Moved\r\nLocation: ::::\r\nContent-Length: 0\r\n\r\n", Either: true},
+	// (redirects are not followed by default: whatever Location says, the 3xx is the status received)
+	{Name: "redirect-to-nowhere", Bytes: "HTTP/1.1 301 Moved\r\nLocation: ::::\r\nContent-Length: 0\r\n\r\n", Status: 301},
+	{Name: "redirect-bad-ipv6", Bytes: "HTTP/1.1 302 Found\r\nLocation: http://[::1/next\r\nContent-Length: 0\r\n\r\n", Status: 302},
+	{Name: "redirect-bad-escape", Bytes: "HTTP/1.1 307 Temporary Redirect\r\nLocation: /next%zz\r\nContent-Length: 0\r\n\r\n", Status: 307},
+	{Name: "redirect-port-only", Bytes: "HTTP/1.1 308 Permanent Redirect\r\nLocation: :8080/next\r\nContent-Length: 0\r\n\r\n", Status: 308},
+	{Name: "redirect-without-location", Bytes: "HTTP/1.1 303 See Other\r\nContent-Length: 0\r\n\r\n", Status: 303},
 	{Name: "hundred-headers", Bytes: "HTTP/1.1 200 OK\r\n" + strings.Repeat("X-H: v\r\n", 100) + "Content-Length: 2\r\n\r\nok", Status: 200},
 	{Name: "64k-header-value", Bytes: "HTTP/1.1 200 OK\r\nX-H: " + strings.Repeat("v", 64<<10) + "\r\nContent-Length: 2\r\n\r\nok", Status: 200},
 	{Name: "empty-reason-and-lf-only", Bytes: "HTTP/1.1 200 \nContent-Length: 2\n\nok", Status: 200},
@@ -355,6 +360,9 @@ func runWire(spec *hutil.Spec, out *hutil.Out) {
 		if spec.Only != "" && !strings.Contains(c.Name(), spec.Only) {
 			continue
 		}
+		if d, _ := findDev(c.Dev, c.Proxy); spec.Property == "C10" && (c.Proxy || d.Either || c.SSL || c.NoKeep) {
+			continue // C10 takes the cells with a definite expectation for the sample's codes (plain, keep-alive)
+		}
 		if out.OverBudget() {
 			return
 		}
@@ -370,7 +378,7 @@ func runWire(spec *hutil.Spec, out *hutil.Out) {
 			continue
 		}
 		if err != nil {
-			out.Violate("C19|"+c.Gun+"|"+classify(err)+"|wire:"+c.Dev, c.Name()+"\n"+err.Error(), c)
+			out.Violate(spec.Property+"|"+c.Gun+"|"+classify(err)+"|wire:"+c.Dev, c.Name()+"\n"+err.Error(), c)
 		}
 		if i%97 == 0 {
 			out.Sample(c)
